@@ -25,12 +25,12 @@ Opaque step cstep stepk.
 Lemma inj_of_some o i : inj_of o = Some i ->
   arg_datum o = inj_d i /\ injecting (kind o) = true /\ inj_kind (kind o) = ik i.
 Proof.
-  destruct o as [| |[[[[] d] se]|]|[[[[] d] se]|]|[[d se]|]| |]; cbn; intros E; try discriminate E;
+  destruct o as [| |[[[[] d] se]|]|[[[[] d] se]|]|[[d se]|]| | |[d se]|[d se]|]; cbn; intros E; try discriminate E;
     injection E as <-; auto.
 Qed.
 Lemma inj_of_none o : inj_of o = None -> injecting (kind o) = false /\ inj_kind (kind o) = INone.
 Proof.
-  destruct o as [| |[[[[] d] se]|]|[[[[] d] se]|]|[[d se]|]| |]; cbn; intros E; try discriminate E; auto.
+  destruct o as [| |[[[[] d] se]|]|[[[[] d] se]|]|[[d se]|]| | |[d se]|[d se]|]; cbn; intros E; try discriminate E; auto.
 Qed.
 
 Lemma legal_stepk_facts cw l k l1 : legal_stepk cw l k = Some l1 ->
@@ -38,7 +38,7 @@ Lemma legal_stepk_facts cw l k l1 : legal_stepk cw l k = Some l1 ->
   (injecting k = true -> l_set l = false /\ l_set l1 = true) /\
   (l_set l = true -> l_set l1 = true).
 Proof.
-  destruct l as [a b c d e]. destruct cw. destruct k as [| |[]|[]| | |];
+  destruct l as [a b c d e]. destruct cw. destruct k as [| |[]|[]| | | | | |];
     destruct a, b, c, d, cw_disabled; cbn;
     intros E; try discriminate E; injection E as <-; cbn; repeat split; intros; try discriminate; auto;
     destruct e; auto.
@@ -163,6 +163,34 @@ Proof.
     unfold keys_p in K; change (cw_golang (cworld_of w)) with (w_golang w) in K; rewrite G, St in K;
     cbn [bstatus_eqb implb] in K end.
   split_conj. auto.
+Qed.
+
+(* no Handshake of a legal history fails because a key-share key is missing or a PSK binder is stale *)
+Theorem handshake_never_fails : forall w ops, world_ok w = true -> legal w ops = true ->
+  herr (st_c (final w (init w) ops)) = false.
+Proof.
+  intros w ops W L. destruct (legal_lf w ops L) as [lf E].
+  pose proof (final_node w ops lf W E) as N. unfold node_ok in N. cbv beta iota delta [fst snd ctl] in N.
+  split_conj. match goal with K : negb (herr _) = true |- _ => destruct (herr _); [discriminate K | reflexivity] end.
+Qed.
+
+(* every successful build (explicit or inside Handshake) with a PSK in place leaves binders computed over the hello
+   just marshaled, whatever edits and earlier builds preceded it *)
+Theorem binders_fresh : forall w ops lf o l2, world_ok w = true ->
+  legal_from w (linit (w_cache0 w)) ops = Some lf -> legal_step w lf o = Some l2 ->
+  kind o = KBuild \/ kind o = KHandshake ->
+  let r := step w o (final w (init w) ops) in
+  snd r = Ok tt -> cs (st_c (fst r)) = PskAllSet -> binder_fresh (st_c (fst r)) = true.
+Proof.
+  intros w ops lf o l2 W E L K r R C.
+  assert (I : inR (cworld_of w) (lf, ctl (final w (init w) ops))).
+  { destruct (injected ops) as [i|] eqn:J.
+    - apply (from_init w ops lf i W E). intros i' Q. rewrite J in Q. congruence.
+    - apply (from_init w ops lf (InjTicket [] 0) W E). intros i' Q. rewrite J in Q. discriminate. }
+  pose proof (inR_binder (cworld_of w) lf _ _ (kind o) l2 W I L) as B.
+  destruct (step_ctl w o (final w (init w) ops)) as [A S]. fold r in A, S.
+  rewrite <- A, <- S, R in B. unfold binder_p, ctl in B. cbn [fst] in B. rewrite C in B.
+  destruct K as [K|K]; rewrite K in B; cbn [cst_eqb negb orb] in B; exact B.
 Qed.
 
 Lemma is_inj_eq x : is_inj x = true -> x = GInj.
